@@ -36,11 +36,13 @@ struct G<'a> {
     centre: u32,
     calls: Vec<PyCall>,
     snaps: usize,
+    depth: u32,
 }
 
 impl<'a> G<'a> {
     fn price(&mut self, bid: bool, passive: bool) -> u32 {
-        let k = self.r.range(0, 5) as u32;
+        // `depth` ticks on each side of the centre: deep enough in the layout scripts to populate all 10 published levels
+        let k = self.r.range(0, self.depth as u64) as u32;
         let p = if passive == bid { self.centre - 1 - k } else { self.centre + 1 + k };
         p * self.tick
     }
@@ -129,7 +131,7 @@ fn book_script(r: &mut SimRng) -> Vec<PyCall> {
     let centre = r.range(20, 100_000) as u32;
     let t0 = *r.pick(&[0u64, 5, 1 << 40, (1 << 62) + 17]);
     let trading = !r.chance(0.15);
-    let mut g = G { r, m: Model::new(t0, tick, trading, Tie::Fifo), tick, centre, calls: vec![], snaps: 0 };
+    let mut g = G { r, m: Model::new(t0, tick, trading, Tie::Fifo), tick, centre, calls: vec![], snaps: 0, depth: 5 };
     let o = "b";
     if g.r.chance(0.15) {
         // constructor with an out-of-range integer first: must raise and create nothing
@@ -225,7 +227,7 @@ fn env_script(r: &mut SimRng) -> Vec<PyCall> {
     let seed = r.next();
     let step = *r.pick(&[100u64, 1000, 1_000_000]);
     let trading = !r.chance(0.1);
-    let mut g = G { r, m: Model::new(t0, tick, trading, Tie::Fifo), tick, centre, calls: vec![], snaps: 0 };
+    let mut g = G { r, m: Model::new(t0, tick, trading, Tie::Fifo), tick, centre, calls: vec![], snaps: 0, depth: 5 };
     let o = "e";
     if g.r.chance(0.15) {
         let a = match g.r.below(4) {
@@ -315,7 +317,7 @@ fn layout_script(r: &mut SimRng) -> Vec<PyCall> {
     let centre = r.range(30, 100_000) as u32;
     let seed = r.next();
     let step = 1000u64;
-    let mut g = G { r, m: Model::new(0, tick, true, Tie::Fifo), tick, centre, calls: vec![], snaps: 0 };
+    let mut g = G { r, m: Model::new(0, tick, true, Tie::Fifo), tick, centre, calls: vec![], snaps: 0, depth: 13 };
     let ctor = vec![json!(seed), json!(0), json!(tick), json!(step), json!(true)];
     g.calls.push(PyCall { k: "new_env".into(), o: "e".into(), m: String::new(), a: ctor.clone() });
     g.calls.push(PyCall { k: "new_numpy".into(), o: "n".into(), m: String::new(), a: ctor });
